@@ -652,6 +652,42 @@ def check_fusion_values(idx: Index, rep: Report) -> None:
         raise AnalysisError(f"only {n_eval} constant-folding / fusion replacements evaluated in {CANON}")
 
 
+STRENGTH_OK = {("MulOp", "SlliOp"), ("DivuOp", "SrliOp"), ("RemuOp", "AndiOp")}
+STRENGTH_BAD = {
+    ("DivOp", "SraiOp"): "div rounds towards zero, srai towards minus infinity: -1 / 2 is 0 but -1 >> 1 is -1",
+    ("DivOp", "SrliOp"): "a logical shift of a negative dividend is a large positive number",
+    ("RemOp", "AndiOp"): "rem takes the sign of the dividend, the mask is never negative: -1 rem 2 is -1 but -1 & 1 is 1",
+    ("DivuOp", "SraiOp"): "divu treats the dividend as unsigned, srai replicates its top bit",
+}
+
+
+def check_strength_reduction(idx: Index, rep: Report) -> None:
+    """Replacing a multiplication / division / remainder by a shift or a mask is an identity only for some pairs of
+    instructions (reference table): signed division by 2^k is NOT an arithmetic shift."""
+    r = rep.rule("C22.R9", "canonicalization patterns that turn mul / div / rem into a shift or a mask use a pair of instructions for which this is an identity of two's-complement arithmetic (reference table)", floor=None)
+    mi = idx.module(CANON)
+    n = 0
+    for c in mi.classes.values():
+        m = c.method("match_and_rewrite")
+        if m is None or len(m.node.args.args) < 2 or m.node.args.args[1].annotation is None:
+            continue
+        opcls = unparse(m.node.args.args[1].annotation).split(".")[-1]
+        if opcls not in ("MulOp", "DivOp", "DivuOp", "RemOp", "RemuOp"):
+            continue
+        for k in calls_in(m.node):
+            nm = call_attr(k) or (k.func.id if isinstance(k.func, ast.Name) else "")
+            if nm in ("SraiOp", "SrliOp", "SlliOp", "AndiOp"):
+                n += 1
+                inst = f"{c.fq}:{opcls}->{nm}"
+                if (opcls, nm) in STRENGTH_OK:
+                    r.ok(inst, f"{m.loc} {opcls} -> {nm}")
+                elif (opcls, nm) in STRENGTH_BAD:
+                    r.fail(inst, Finding("C22.R9", c.fq, f"strength-reduction:{opcls}->{nm}", f"{c.name} replaces {opcls} by `{unparse(k)[:60]}`: {STRENGTH_BAD[(opcls, nm)]}; canonicalization alone changes the result", f"{CANON}:{k.lineno}"))
+                else:
+                    raise AnalysisError(f"{c.fq}: replacement of {opcls} by {nm} is not in the reviewed strength-reduction table")
+    r.ok("patterns scanned", f"{n} strength reductions found in {CANON}")
+
+
 def check_zero_immediate(idx: Index, rep: Report) -> None:
     """The shift-by-zero canonicalization (`op x, 0 -> mv x`) is attached to the whole shift-immediate format.  It is
     sound only for operations whose result with immediate 0 is rs1: shifts and rotates, not the single-bit
@@ -711,6 +747,7 @@ def check(idx: Index, rep: Report, tier: str) -> str:
     rep.run(check_identities, idx, rep)
     rep.run(check_fusion_values, idx, rep)
     rep.run(check_zero_immediate, idx, rep)
+    rep.run(check_strength_reduction, idx, rep)
     return (
         "Reference-table agreement of the table-driven arith->riscv lowerings; exact abstract evaluation of the cmpi / cmpf "
         "instruction templates over the finite outcome spaces (signed x unsigned order; lt/eq/gt/unordered) against arith's "
